@@ -1,0 +1,56 @@
+//go:build verif
+
+// Contracts for the govc verifier (comment-only; see /verif/DESIGN.md).
+// This file contains no code. It is read as text by /verif/bin/govc.
+
+package racdict
+
+//@ default mode int
+
+//@ func u32LE
+//@   prop C15 C14 C13
+//@   mode bv
+//@   pure
+//@   requires len(b) >= 4
+
+// Load: reading a wrapped dictionary named by a (possibly hostile) chunk never
+// indexes or slices out of range; the dictionary returned is shorter than 2^30
+// bytes; on success it is what the cache holds for that CSecondary range.
+//@ func (*Loader).Load
+//@   prop C15 C14
+//@   requires r != nil && rs != nil && len(r.cachedBytes) < 1073741824
+//@   ensures[size] implies(retErr == nil, len(dictionary) < 1073741824) && len(r.cachedBytes) < 1073741824
+//@   ensures[cached] implies(retErr == nil && len(dictionary) > 0, sameslice(dictionary, r.cachedBytes) && r.cachedRange[0] == chunk.CSecondary[0] && r.cachedRange[1] == chunk.CSecondary[1])
+//@   modifies r.cachedBytes, r.cachedRange, mem(r.buf), mem(r.cachedBytes)
+
+// The codec callbacks handed to Saver (assumed).
+//@ func fv (*Saver).WrapResource.refineResourceData
+//@   trusted_contract the codec's refineResourceData callback: touches nothing the Saver can see; result arbitrary
+//@   pure
+
+//@ func fv (*Saver).Compress.compress
+//@   trusted_contract the codec's compress callback: touches nothing the Saver can see; its result lives in the codec's own memory, which a later call may overwrite ("Every call to compress can clobber the bytes previously returned by compress")
+//@   pure
+
+//@ func fv (*Saver).Compress.refineResourceData
+//@   trusted_contract the codec's refineResourceData callback: touches nothing the Saver can see; result arbitrary
+//@   pure
+
+// WrapResource: length prefix, payload, CRC-32 suffix - all writes inside the new buffer.
+//@ func (*Saver).WrapResource
+//@   prop C13
+//@   ensures implies(result1 == nil, len(result0) >= 8 && len(result0) <= 1073741823 + 8)
+
+// Compress: the best result so far must not live in the callback's memory while
+// the callback is called again: before every further compress call it is the
+// Saver's own stash.
+//@ func (*Saver).Compress
+//@   prop C13
+//@   requires w != nil
+//@   ensures[index] implies(retErr == nil, secondaryResource == -1 || (0 <= secondaryResource && secondaryResource < len(resourcesData)))
+//@   modifies w.stash, mem(w.stash)
+//@   assert@call compress#2 [stashed] sameslice(compressed, w.stash)
+//@   loop 1 invariant -1 <= rangeindex && rangeindex < len(resourcesData) && (secondaryResource == -1 || (0 <= secondaryResource && secondaryResource < len(resourcesData)))
+//@   loop 1 invariant sameslice(compressed, w.stash) || rangeindex == len(resourcesData) - 1
+//@   loop 1 invariant base(w.stash) == old(base(w.stash)) || fresh(base(w.stash))
+//@   loop 1 decreases len(resourcesData) - rangeindex
